@@ -10,7 +10,7 @@ open Conv
 open Drv
 
 let cmp_tok c = tok_of_n (cmp_to_N c)
-let ncmp a b = let c = Z.compare (z_of_n a) (z_of_n b) in if c < 0 then "0" else if c = 0 then "1" else "2"
+let ncmp a b = let c = ZA.compare (z_of_n a) (z_of_n b) in if c < 0 then "0" else if c = 0 then "1" else "2"
 
 let eval inp obs =
   match inp with
@@ -39,6 +39,24 @@ let eval inp obs =
     { default_verdict with
       model_obs = [cmp_tok (lex_compare (event_id e1 l1 t1) (event_id e2 l2 t2))];
       spec_ok = Some (obs = [cmp_tok (triple_compare ((e1, l1), t1) ((e2, l2), t2))]) }
+  | "IDSEQ" :: rest ->
+    (* IDSEQ ; E e ; L l ; S tail ; B tail ; ...   obs: one "hex(id) epoch lamport" triple per S/B *)
+    let groups = List.filter (fun g -> g <> []) (split_on ";" rest) in
+    let ops = List.map (function
+      | ["E"; e] -> BSetEpoch (n_of_tok e)
+      | ["L"; l] -> BSetLamport (n_of_tok l)
+      | ["S"; t] -> BSetID (bytes_of_hex t)
+      | ["B"; t] -> BBuild (bytes_of_hex t)
+      | _ -> failwith "bad builder op") groups in
+    let ids = brun builder0 ops in
+    let mo = List.concat (List.map (fun id -> [hex_of_bytes id; tok_of_n (id_epoch id); tok_of_n (id_lamport id)]) ids) in
+    let spec = bspec N0 N0 ops in
+    let rec chk obs spec = match obs, spec with
+      | [], [] -> true
+      | _ :: e :: l :: r, (se, sl) :: sr -> e = tok_of_n se && l = tok_of_n sl && chk r sr
+      | _ -> false in
+    { default_verdict with model_obs = mo; spec_ok = Some (chk obs spec);
+      nontrivial = List.length ids >= 2 }
   | _ -> failwith "bad case"
 
 let () = run eval
